@@ -36,6 +36,14 @@ Fixpoint lex_before (fuel : nat) (c : N) (r : list N) : option (list token) :=
       end
   end.
 
+Lemma cql_lex_step : forall s ru n, s <> [] -> pick lexer_rules s None = Some (ru, n) ->
+  cql_lex s =
+  match cql_lex (skipn n s) with
+  | LexOk ts => LexOk (if r_skip ru then ts else (r_kind ru, firstn n s) :: ts)
+  | o => o
+  end.
+Proof. intros s ru n Hs P. exact (lex_step lexer_rules s ru n Hs P). Qed.
+
 Theorem lex_prefix : forall f c pre tp, lex_before f c pre = Some tp ->
   forall x, cql_lex (pre ++ c :: x) = pushl tp (cql_lex (c :: x)).
 Proof.
@@ -51,11 +59,10 @@ Proof.
     { replace ((a :: r) ++ c :: x) with (((a :: r) ++ [c]) ++ x) by (rewrite <- app_assoc; reflexivity).
       rewrite pick_dies by exact D. exact P. }
     assert (Hne : (a :: r) ++ c :: x <> []) by discriminate.
-    unfold cql_lex. rewrite (lex_step lexer_rules _ ru n Hne P').
+    rewrite (cql_lex_step _ ru n Hne P').
     rewrite skipn_app, firstn_app.
     replace (n - length (a :: r)) with 0 by lia. cbn [skipn firstn]. rewrite app_nil_r.
-    fold (cql_lex (skipn n (a :: r) ++ c :: x)). rewrite (IH c _ ts R x).
-    fold (cql_lex (c :: x)).
+    rewrite (IH c _ ts R x).
     destruct (r_skip ru); destruct (cql_lex (c :: x)); reflexivity.
 Qed.
 
